@@ -51,7 +51,7 @@ PROPS = {
         assumptions=COMMON_ASSUME + ['the rules of the statement determine the layout uniquely; harness/common/ref_encoder.h implements exactly those rules'],
         floors=dict(quick={'distinct_nontrivial': 2000, 'fit_boundary_fresh_frame[0]': 100, 'fit_boundary_fresh_frame[1]': 100, 'fit_boundary_fresh_frame[-1]': 100,
                            'fit_boundary_remaining_space[0]': 50, 'fit_boundary_remaining_space[1]': 50, 'fit_boundary_remaining_space[-1]': 50,
-                           'type_change_inside_batch': 500},
+                           'type_change_inside_batch': 500, 'message_count_boundary_cases': 102},
                     thorough={'distinct_nontrivial': 20000, 'fit_boundary_remaining_space[0]': 1000, 'fit_boundary_remaining_space[1]': 1000}),
     ),
     'C09': dict(
@@ -76,7 +76,7 @@ PROPS = {
               'history; distinct = distinct hash of (last message type of the previous call, first type of this call, previous call ended with a '
               'segmented packet?, this call needs segmentation?, batch shape signature).'),
         assumptions=COMMON_ASSUME,
-        floors=dict(quick={'distinct_nontrivial': 1000, 'feat:c10_transition': 12}, thorough={'distinct_nontrivial': 20000, 'feat:c10_transition': 16}),
+        floors=dict(quick={'distinct_nontrivial': 1000, 'feat:c10_transition': 12, 'encode_calls_left_by_exception': 500}, thorough={'distinct_nontrivial': 20000, 'feat:c10_transition': 16}),
     ),
 
     'C04': dict(
@@ -109,7 +109,7 @@ PROPS = {
         stages=[dict(driver='drv_decode', flavour='asan')],
         rule=('cases = (stream, fault sequence); non-trivial iff at least one fault hit a frame of a segmented message; distinct = distinct hash of the sequence of (fault kind, role of the hit frame in its message: unsegmented/first/middle/last) x stream id.'),
         assumptions=COMMON_ASSUME,
-        floors=dict(quick={'distinct_nontrivial': 1000, 'exhaustive_fault_pairs': 57600, 'recovered_segmented_deliveries': 10000, 'feat:c06_fault_kinds': 5},
+        floors=dict(quick={'distinct_nontrivial': 1000, 'exhaustive_fault_pairs': 57600, 'recovered_segmented_deliveries': 10000, 'feat:c06_fault_kinds': 5, 'burst_or_displacement_cases': 1000, 'feat:c06_burst_lengths': 20},
                     thorough={'distinct_nontrivial': 5000, 'exhaustive_fault_pairs': 57600}),
     ),
     'C17': dict(
@@ -144,7 +144,7 @@ PROPS = {
                 dict(driver='fuzz_decode', flavour='fuzz', runner='fuzz', tiers=('thorough',), runs=dict(thorough=8000000), max_len=4096)],
         rule=('cases = deterministic canonical-frame mutations + TECMP sweep + seeded random histories of 1..40 frames; every decode call is one evaluation. distinct_nontrivial = distinct (frame family + mutation kinds, packets accepted (0,1,2,3+)) pairs and (family, mutated field) pairs.'),
         assumptions=COMMON_ASSUME,
-        floors=dict(quick={'distinct_nontrivial': 3000, 'inputs_guard_paged_readonly': 50000, 'ownership_rechecks': 20000, 'tecmp_message_types_swept': 256, 'reassembly_totals_beyond_65535': 24, 'typed_boundary_cases': 112, 'feat:c02_family_truncated': 49, 'feat:c02_family_field_mutated': 49},
+        floors=dict(quick={'distinct_nontrivial': 3000, 'inputs_guard_paged_readonly': 50000, 'ownership_rechecks': 20000, 'tecmp_message_types_swept': 256, 'reassembly_totals_beyond_65535': 24, 'typed_boundary_cases': 112, 'segment_header_product_cases': 45, 'feat:c02_family_truncated': 49, 'feat:c02_family_field_mutated': 49},
                     thorough={'distinct_nontrivial': 5000, 'tecmp_message_types_swept': 256}),
     ),
     'C03': dict(
@@ -155,7 +155,7 @@ PROPS = {
                 dict(driver='fuzz_payload', flavour='fuzz', runner='fuzz', tiers=('thorough',), runs=dict(thorough=16000000), max_len=2048)],
         rule=('cases = (class, buffer); every buffer is one evaluation run through three paths. Non-trivial = buffer accepted by the class validator; distinct = distinct (class, buffer content hash).'),
         assumptions=COMMON_ASSUME,
-        floors=dict(quick={'distinct_nontrivial': 20000, 'accepted_can': 1000, 'accepted_canfd': 1000, 'accepted_lin': 1000, 'accepted_eth': 1000, 'accepted_analog': 1000, 'accepted_cm': 1000, 'accepted_if': 1000, 'feat:c03_classes': 7},
+        floors=dict(quick={'distinct_nontrivial': 20000, 'accepted_can': 1000, 'accepted_canfd': 1000, 'accepted_lin': 1000, 'accepted_eth': 1000, 'accepted_analog': 1000, 'accepted_cm': 1000, 'accepted_if': 1000, 'feat:c03_classes': 7, 'buffers_longer_than_65535_cases': 24},
                     thorough={'distinct_nontrivial': 200000, 'accepted_cm': 10000, 'accepted_if': 10000}),
     ),
 
